@@ -258,4 +258,26 @@ ScanB(m, start, inclStart) ==
   LET g == GEPathB(m, start) IN
   IF g.path = <<>> THEN <<>>
   ELSE ScanFromPathB(m, IF g.eq /\ ~inclStart THEN NextPathB(m, g.path, Len(g.path) - 1) ELSE g.path)
+
+\* ---- the level table on the stored form (slimtrie_level.go: initLevels) ------------------
+\* from the root, walk to the first node of the next level -- the left-most child of the
+\* first inner node at or after the current level's first node -- until no inner node is left
+OnesAllR64(bm)  == Cardinality(bm.bits)
+RECURSIVE LevelWalkB(_, _, _)
+LevelWalkB(m, cur, totalInner) ==
+  LET nextInner == Rank64B(m.nodetype, cur)[1]
+      here == <<cur, nextInner, cur - nextInner>> IN
+  IF nextInner = totalInner THEN <<here>>
+  ELSE \* getIthInnerFrom(nextInner): the bit range of the nextInner-th inner node
+       LET big  == nextInner < m.bigcnt
+           sr   == IF big THEN <<0, 0>> ELSE Rank64B(m.shortbm, nextInner)
+           from == IF big THEN nextInner * 257
+                   ELSE (257 - 17) * m.bigcnt + 17 * nextInner + (m.shortsize - 17) * sr[1]
+       IN <<here>> \o LevelWalkB(m, Rank128B(m.inners, from)[1] + 1, totalInner)
+
+LevelsB(m) ==
+  IF m.nodetype.nwords <= 0 THEN << <<0, 0, 0>> >>
+  ELSE LET ti    == OnesAllR64(m.nodetype)
+           total == IF ti > 0 THEN Cardinality(m.inners.bits) + 1 ELSE 1
+       IN LevelWalkB(m, 0, ti) \o << <<total, ti, total - ti>> >>
 =============================================================================
